@@ -36,6 +36,83 @@ CLAIMS = {
   note="Hu-Tucker alphabetic comparison (HTFC family) and the FM-index separator-rotated mapping are not modelled: correspondence against the "
        "specification only. XBW rank operations violate the property on the pinned tree (known finding).",
   technique="Coq proof + extracted-model/implementation correspondence"),
+ "C04": dict(
+  text="Coq theorems: the byte-exact PFC model of locateBoundaryBuckets (three binary searches), searchPrefix, searchDistinctPrefix, "
+       "locatePrefix, IteratorDictIDContiguous and extractPrefix returns exactly range_of (spec_prefix_ids S p) / the matching strings for "
+       "EVERY valid set, bucket size and non-empty pattern, (0,0) and a null iterator when nothing matches, with no read outside the "
+       "dictionary (pfc_locate_prefix_spec, pfc_locate_prefix_ids, pfc_extract_prefix_spec); RPDAC: the three binary searches over "
+       "compare-while-expanding on the grammar equal the specification (rpdac_locate_prefix_spec, over any well-formed grammar); FM-index: "
+       "the interval of \\1 p shifted by the separator-rotated mapping equals the specification (fm_locatePrefix_spec, over any BWT passing "
+       "the verified checker); specification: matching IDs of a sorted set are one contiguous ascending duplicate-free range. Tie: the "
+       "eight prefix-capable kinds against the extracted specification on boundary-directed patterns; PFC also against the concrete model.",
+  note="RPFC/HTFC/HHTFC/RPHTFC copies of the PFC algorithm and XBW are tied by correspondence only. RPDAC and FM theorems are conditional on "
+       "per-instance validated artefacts (grammar / BWT produced by the real constructors, checked by verified checkers in C20 / C05 runs).",
+  technique="Coq proof (binary-search and scan invariants) + extracted-model/implementation correspondence"),
+ "C05": dict(
+  text="Coq theorems about an algorithm-exact model of SSA::locate / locateP / locate_id and StringDictionaryFMINDEX::locateSubstr over an "
+       "abstract BWT: LF-mapping correctness, backward search returns exactly the rows whose suffix starts with the pattern, the LF walk "
+       "to a sampled row or separator yields the ID of the containing string for every sampling step, and sort + IteratorDictIDDuplicates "
+       "yields exactly spec_substr_ids (fm_locateSubstr_spec), for every text of the dictionary form whose (SA,BWT,occ,samples) pass the "
+       "verified checker fm_check. Tie: the real object's BWT, occ, sample and separator arrays are dumped, checked by the extracted checker, "
+       "and every query is answered by the model run on the dumped arrays, by the implementation and by the specification.",
+  note="Suffix sorting / BWT construction and the wavelet tree / bitmap implementations are validated per instance (verified checker), not verified. "
+       "extractSubstr string stream: iterator plumbing covered by correspondence only. XBW: specification only; XBW substring search does not "
+       "work on the pinned tree (known finding).",
+  technique="Coq proof (FM-index backward-search / LF invariants + verified checker) + correspondence"),
+ "C06": dict(
+  text="Proof obligations regenerated from the CURRENT source on every run (clang-AST translator -> Schema_gen.v): for each of 30 classes the "
+       "ordered item list of load equals that of save (C06_mirror_K, count expressions included), the schema is well-formed (every count is "
+       "a field saved earlier) and hence, by the generic theorem read_write / self_delimiting, a mirrored loader reads back what was written and "
+       "consumes exactly the written bytes; dispatcher table routes every tag to the loader guarding that tag, complete and duplicate-free. "
+       "Tier-A instance: pfc_load_save on the byte-exact PFC image (self-delimiting, reloads to the same value, answers equal the spec). "
+       "Tie: all 13 kinds x {generic loader, own loader with a second image appended (tellg), load options} x all queries vs original and spec.",
+  note="Trusted additionally: the translator and the size assumption on saveValue/loadValue. 'State that exists only after load' and nested libcds "
+       "sequences (SSA's wavelet tree) are covered by correspondence only (schema_fallback list is pinned by a theorem).",
+  technique="translator-regenerated Coq obligations + generic round-trip theorem + correspondence"),
+ "C08": dict(
+  text="Regenerated obligations: no save body changes state except the listed finding (C08_save_pure), the tag word comes from a stable source in "
+       "every class (C08_tag_stable_K; the unstable list is proved empty), nested saver arguments are pinned. Tier-A: pfc_save is a function of the "
+       "value, re-saving the reloaded PFC reproduces the image byte for byte (pfc_resave_identical, pfc_build_image_deterministic). Tie: all 13 "
+       "kinds: answers before/after save, second save, second independent build, whole run repeated under a different heap fill pattern (no "
+       "uninitialised byte in any image), load -> save -> load equivalence.",
+  note="Byte-level determinism of the kinds other than PFC is correspondence only (partial). Known findings: re-saving HASHHF/HASHRPF objects loaded "
+       "with the compact hash representations, re-saving a loaded XBW.",
+  technique="translator-regenerated Coq obligations + Coq proof (PFC image) + correspondence with heap-fill perturbation"),
+ "C12": dict(
+  text="Coq theorems: every PFC answer (locate, extract, table, prefix range) is independent of the bucket size because each equals the "
+       "parameter-free specification; a bucket size below 2 yields the very same dictionary value as 2 (pfc_bucket_clamp); hashing: insertion "
+       "succeeds and search finds every key for every prime table size >= n (dh_insert_succeeds, nearest_prime_spec: result >= n and prime, "
+       "probe sequence visits all cells), the three hash-table representations chosen at load answer identically (hash_repr_equiv); FM sampling "
+       "step never changes locateSubstr (fm_locateSubstr_spec is step-independent); block cut size / thread count: C09. Tie: same S built under "
+       "parameter vectors from the grid, every answer compared with the specification (hence pairwise).",
+  note="sqrt(double) in nearest_prime modelled by an integer square root; kinds other than PFC/hashing protocol: correspondence only.",
+  technique="Coq proof (corollaries of the per-kind specification theorems) + correspondence over a parameter grid"),
+ "C13": dict(
+  text="Coq theorems: IteratorDictStringPFC started in any bucket at any in-bucket offset yields exactly the requested slice of S and stops "
+       "(iter_scan_spec, pfc_extract_table_spec, iter_range_spec), IteratorDictIDContiguous yields l..r and nothing for (0,0) incl. the size_t "
+       "wrap (contig_ids_spec), RPDAC table/prefix iterators (rpdac_table_spec), the duplicate-skipping ID iterator with its 0 sentinel (used by "
+       "fm_locateSubstr_spec). Tie: extractTable of 12 kinds = extract(1..n); every string/ID iterator drained with hasNext, reported length = "
+       "strlen, NUL-terminated, no runaway.",
+  note="Iterators of RPFC/HT*/FMINDEX strings/XBW/hash materialised tables: correspondence only.",
+  technique="Coq proof (iterator state-machine invariants) + correspondence"),
+ "C16": dict(
+  text="Regenerated obligations: the generic loader returns NULL for every one of the 2^32 tags outside the dispatch table (C16_unknown_tag / "
+       "C16_unknown_image, membership argument over the table extracted from the current source), every dictionary loader starts with a guard "
+       "returning NULL, guards are pairwise distinct so each loader refuses every other kind's image (C16_all_guarded, C16_foreign_image, "
+       "C16_guards_distinct); PFC model: pfc_load rejects a foreign tag / short image. Tie: every unsupported operation of every kind returns "
+       "null/0 and supported queries still answer; 20+ unknown tags and 12 foreign loaders per image.",
+  note="Which operations a kind supports is the oracle's hand-written table; stubs are tied by correspondence.",
+  technique="translator-regenerated Coq obligations + correspondence"),
+ "C18": dict(
+  text="Coq theorems: codes read off any binary tree are prefix-free and complete (Kraft equality), ordered trees give alphabetic codes and "
+       "alphabetic codes make encoded strings compare like the strings (what HTFC's memcmp relies on), unique decodability; verified checkers "
+       "for stored (codeword,bits) tables; bit-exact model of StatCoder::encodeSymbol with round trip from any bit offset (C18_bit_roundtrip); "
+       "Hu-Tucker recombination phase (stack algorithm and its array-level refinement) is sound; one chunk-table step equals the corresponding "
+       "bit steps. Tie: REAL HuTucker/Huffman tables checked by the extracted checkers, real recombination vs model, real packing vs model, "
+       "real chunk table round trips.",
+  note="Hu-Tucker combination/level assignment, createHuff and the decoding-table builder are validated per instance, not verified; coverage of the "
+       "data-dependent chunk table is not modelled (and is violated by the HT-family dictionaries: known finding).",
+  technique="Coq proof (code theory, verified checkers, bit-level packing) + correspondence"),
  "C09": dict(
   text="Coq theorems over ALL interleavings and any worker count: the slot protocol of the block constructor (slot reserved under the mutex "
        "before the task is queued, worker writes its own slot, constructor waits for parts_done = |parts|) yields parts = map build_block "
@@ -85,16 +162,8 @@ CLAIMS = {
 }
 
 PLANNED = {
- "C04": "prefix-search check under construction (PFC model already covers locatePrefix/extractPrefix; proof in progress)",
- "C05": "substring-search check under construction",
- "C06": "persistence check under construction",
  "C07": "memory-safety check under construction",
- "C08": "save-purity check under construction",
- "C12": "parameter-independence check under construction",
- "C13": "iterator-protocol check under construction",
  "C14": "query-purity check under construction",
- "C16": "fail-safe check under construction",
- "C18": "code-table check under construction",
  "C19": "succinct-structure check under construction",
 }
 
